@@ -24,9 +24,9 @@ CONSTANTS Menu,          \* entry kinds the tables are made of (Kinds | KindsCor
 \* which maskable procfs entries exist, mount flags of the file systems holding the sources
 ProcSome == { [p |-> <<"keys">>, t |-> "f"], [p |-> <<"timer_list">>, t |-> "f"], [p |-> <<"acpi">>, t |-> "d"] }
 EnvHere  == [proc |-> ProcSome, srcfl |-> {"RELATIME"}, lockfl |-> {"NOSUID", "NODEV", "NOEXEC", "RELATIME"},
-             sharefl |-> {"RELATIME"}, shared |-> TRUE]
+             sharefl |-> {"RELATIME"}, shared |-> TRUE, flipfl |-> {"RELATIME"}]
 EnvOther == [proc |-> ProcSome, srcfl |-> {"NOSUID", "NODEV", "RELATIME"}, lockfl |-> {"NOSUID", "NOATIME"},
-             sharefl |-> {"NOSUID", "RELATIME"}, shared |-> FALSE]
+             sharefl |-> {"NOSUID", "RELATIME"}, shared |-> FALSE, flipfl |-> {"NODEV", "RELATIME"}]
 EnvsOne  == { EnvHere }
 EnvsTwo  == { EnvHere, EnvOther }
 
